@@ -402,6 +402,36 @@ fn illegal_char_cases(ctx: &Ctx, corp: &[String], offs: &[Vec<usize>], n: u64) -
     out
 }
 
+// Lexical errors inside a string literal that already contains escapes
+// (decoded newlines must not count as lines) on the last line of the file.
+fn escape_then_error_cases(ctx: &Ctx) -> Vec<(Case, bool)> {
+    let mut out = vec![];
+    let bads = ["\\q", "\\xZ1", "$x", "\\x4", "\\ "];
+    for lines_before in [0usize, 1, 3] {
+        for k in 0..=6usize {
+            for (bi, bad) in bads.iter().enumerate() {
+                for open in ["\"", "$\""] {
+                    if *bad == "$x" && open == "$\"" {
+                        // `$x` in an interpolated literal is a bad slot start: still an error.
+                    }
+                    let esc = ["\\n", "\\r", "\\\\", "\\x41", "\\\"", "\\n\\n"][(k + bi) % 6];
+                    let mut src = String::new();
+                    for i in 0..lines_before {
+                        src.push_str(&format!("print({i})\n"));
+                    }
+                    src.push_str(&format!("v := {open}{}{} tail\"", esc.repeat(k), bad));
+                    if (k + bi) % 2 == 0 {
+                        src.push('\n');
+                    }
+                    ctx.label("lexical error after escapes in the same literal");
+                    out.push((front_case("escape_then_error", src.into_bytes(), "reject", lines_before as u32 + 1, "a lexical error after k escapes in the same literal, on the last line"), k > 0));
+                }
+            }
+        }
+    }
+    out
+}
+
 pub fn run(ctx: &Ctx) {
     ctx.set_rule("all strings of length <= 3 over a 50-symbol alphabet of Seed punctuation / keywords / escapes / multi-byte and control characters (exhaustive), random Unicode strings, token-level mutations (delete, duplicate, swap, replace, glue a multi-byte character, control characters) and truncations of the repository's 336 test scripts and of generated programs, unterminated strings / escapes / slots at EOF, invalid UTF-8 inside comments / strings / anywhere, valid printing prefix + broken tail; oracle: never a crash or hang; a front-end rejection has empty stdout, exit 103, exactly one `<path>:<line>:<col>: <message>` with 1 <= line <= lines+1 (and within the broken tail); non-UTF-8 is a read error. Non-trivial = the input is rejected, or was mutated / contains multi-byte or control characters next to tokens; distinct = distinct inputs");
     ctx.replay_corpus(Some(&custom));
@@ -441,6 +471,7 @@ pub fn run(ctx: &Ctx) {
         Some((c, true))
     });
     ctx.judge_all(illegal_char_cases(ctx, &corp, &offs, ctx.n(2_000, 60_000)), Via::Cli, Some(&custom));
+    ctx.judge_all(escape_then_error_cases(ctx), Via::Cli, Some(&custom));
     // Every-offset truncation of a few programs, through the binary.
     let mut cases = vec![];
     for (k, s) in corp.iter().enumerate().filter(|(k, _)| k % 29 == 0).take(if ctx.tier == Tier::Quick { 8 } else { 60 }) {
